@@ -36,6 +36,12 @@ package nlp
 //@   ensures[nlp.new-tfidf] result != nil && fresh(result) && wfTFIDF(result) && result.commands == commands
 
 //@ pure func vocabOK(s *TFIDFSearcher, n int) bool = s.vocabulary != nil && fresh(s.vocabulary) && (forall w string :: (w in s.vocabulary) ==> 0 <= s.vocabulary[w] && s.vocabulary[w] < n)
+//@ pure func distinctStr(s []string) bool = forall a, b int :: 0 <= a && a < b && b < len(s) ==> s[a] != s[b]
+//@ func sortedTerms
+//@   modifies nothing
+//@   ensures[nlp.sorted-terms] fresh(result) && (forall k int :: 0 <= k && k < len(result) ==> (result[k] in counts))
+//@ loop 1
+//@   invariant fresh(terms) && (forall k int :: 0 <= k && k < len(terms) ==> (terms[k] in counts))
 //@ func (*TFIDFSearcher).buildIndex
 //@   modifies s.*
 //@   ensures[nlp.build-index] wfTFIDF(s) && s.commands == old(s.commands)
@@ -44,15 +50,18 @@ package nlp
 //@ loop 2
 //@   invariant wordCounts != nil && fresh(wordCounts) && wordSet != nil && fresh(wordSet) && wordSet != wordCounts && len(documents) == len(s.commands) && fresh(documents) && s.commands == old(s.commands)
 //@ loop 3
-//@   invariant vocabOK(s, vocabIndex) && vocabIndex == len(s.vocabulary) && vocabIndex >= 0 && (forall w string :: (w in s.vocabulary) ==> (w in $visited)) && wordCounts != nil && fresh(wordCounts) && s.vocabulary != wordCounts && len(documents) == len(s.commands) && fresh(documents) && s.commands == old(s.commands)
+//@   invariant wordCounts != nil && fresh(wordCounts) && len(documents) == len(s.commands) && fresh(documents) && s.commands == old(s.commands) && fresh(allWords) && distinctStr(allWords) && (forall k int :: 0 <= k && k < len(allWords) ==> (allWords[k] in $visited))
 //@ loop 4
-//@   invariant vocabOK(s, len(s.idf)) && fresh(s.idf) && len(s.idf) == len(s.vocabulary) && len(documents) == len(s.commands) && fresh(documents) && s.commands == old(s.commands)
+//@   invariant vocabOK(s, vocabIndex) && vocabIndex == len(s.vocabulary) && vocabIndex >= 0 && wordCounts != nil && fresh(wordCounts) && s.vocabulary != wordCounts && len(documents) == len(s.commands) && fresh(documents) && s.commands == old(s.commands) && fresh(allWords) && distinctStr(allWords)
+//@   invariant forall w string :: (w in s.vocabulary) ==> (exists k int :: 0 <= k && k < $i && allWords[k] == w)
 //@ loop 5
-//@   invariant vocabOK(s, len(s.idf)) && fresh(s.idf) && len(documents) == len(s.commands) && fresh(documents) && s.commands == old(s.commands) && len(s.commandTF) == len(s.commands) && fresh(s.commandTF) && len(s.commandNorms) == len(s.commands) && fresh(s.commandNorms)
+//@   invariant vocabOK(s, len(s.idf)) && fresh(s.idf) && len(s.idf) == len(s.vocabulary) && len(documents) == len(s.commands) && fresh(documents) && s.commands == old(s.commands)
 //@ loop 6
+//@   invariant vocabOK(s, len(s.idf)) && fresh(s.idf) && len(documents) == len(s.commands) && fresh(documents) && s.commands == old(s.commands) && len(s.commandTF) == len(s.commands) && fresh(s.commandTF) && len(s.commandNorms) == len(s.commands) && fresh(s.commandNorms)
+//@ loop 7
 //@   invariant vocabOK(s, len(s.idf)) && fresh(s.idf) && len(documents) == len(s.commands) && fresh(documents) && s.commands == old(s.commands) && len(s.commandTF) == len(s.commands) && fresh(s.commandTF) && len(s.commandNorms) == len(s.commands) && fresh(s.commandNorms) && 0 <= i && i < len(documents)
 //@   invariant termCounts != nil && fresh(termCounts) && (forall k int :: (k in termCounts) ==> 0 <= k && k < len(s.idf))
-//@ loop 7
+//@ loop 8
 //@   invariant vocabOK(s, len(s.idf)) && fresh(s.idf) && len(documents) == len(s.commands) && fresh(documents) && s.commands == old(s.commands) && len(s.commandTF) == len(s.commands) && fresh(s.commandTF) && len(s.commandNorms) == len(s.commands) && fresh(s.commandNorms) && 0 <= i && i < len(documents)
 //@   invariant termCounts != nil && fresh(termCounts) && (forall k int :: (k in termCounts) ==> 0 <= k && k < len(s.idf)) && s.commandTF[i] != nil && fresh(s.commandTF[i])
 
